@@ -141,6 +141,7 @@ package bgp
 //@   modifies p.*
 //@   ensures err == nil ==> len(value) == int(p.Length) && p.Len() <= len(data)
 //@   ensures err == nil ==> p.Flags == data[0] && p.Type == data[1]
+//@   ensures err == nil ==> (p.Length > 255 ==> p.Flags & BGP_ATTR_FLAG_EXTENDED_LENGTH != 0)
 //@   ensures err != nil ==> freshMsgErr(err)
 
 //@ func (*PathAttribute).Serialize
@@ -178,7 +179,10 @@ package bgp
 //@ func (*PathAttributeCommunities).DecodeFromBytes
 //@   modifies p.*
 //@   loop 0 decreases len(value)
+//@   loop 0 invariant 4*(len(p.Value) - old(len(p.Value))) + len(value) == int(p.Length) && len(value) % 4 == 0
 //@   ensures err != nil ==> freshMsgErr(err)
+// from C04: decoding into an empty attribute leaves Length consistent with the content (what Serialize/Len rely on)
+//@   ensures err == nil && old(len(p.Value)) == 0 ==> lenFits(p.Flags, p.Length, 4*len(p.Value))
 //@ func (*PathAttributeClusterList).DecodeFromBytes
 //@   modifies p.*
 //@   loop 0 decreases len(value)
@@ -519,6 +523,7 @@ package bgp
 //@ func NewPathAttributeCommunities
 //@   modifies nothing
 //@   ensures result != nil && fresh(result)
+//@   ensures len(value) <= 16383 ==> lenFits(result.Flags, result.Length, 4*len(value)) && len(result.Value) == len(value)
 //@ func NewPathAttributeLargeCommunities
 //@   modifies nothing
 //@   ensures result != nil && fresh(result)
@@ -531,6 +536,7 @@ package bgp
 //@ func getPathAttrFlags
 //@   pure
 //@   modifies nothing
+//@   ensures length > 255 ==> result & BGP_ATTR_FLAG_EXTENDED_LENGTH != 0
 //@ props C17
 //@ interface ExtendedCommunityInterface.GetTypes
 //@   pure
@@ -797,3 +803,56 @@ func verifLenIPAddrPrefix(a *IPAddrPrefix) bool {
 	buf, err := a.Serialize()
 	return err == nil && len(buf) == a.Len()
 }
+
+// "The length every attribute ... reports equals the number of bytes it emits", on the real Serialize methods:
+// whenever the Length field matches the content (and the extended-length flag is set when it does not fit one
+// octet - what the constructors and the decoder establish), Serialize emits exactly Len() octets.
+//@ spec attrLen(flags BGPAttrFlag, length uint16) int = (flags & BGP_ATTR_FLAG_EXTENDED_LENGTH != 0 ? 4 : 3) + int(length)
+//@ spec lenFits(flags BGPAttrFlag, length uint16, n int) bool = int(length) == n && (n > 255 ==> flags & BGP_ATTR_FLAG_EXTENDED_LENGTH != 0)
+// attrLen is what (*PathAttribute).Len computes
+//@ func verifLenIsHeaderPlusLength
+//@   requires p != nil
+//@   inline-calls
+//@   modifies nothing
+//@   ensures result
+func verifLenIsHeaderPlusLength(p *PathAttribute) bool {
+	h := 3
+	if p.Flags&BGP_ATTR_FLAG_EXTENDED_LENGTH != 0 {
+		h = 4
+	}
+	return p.Len() == h+int(p.Length)
+}
+
+//@ func (*PathAttributeCommunities).Serialize
+//@   requires p != nil && len(p.Value) <= 16383
+//@   modifies nothing
+//@   loop 0 invariant len(buf) == 4*len(p.Value) && fresh(buf) && __iter + 1 <= len(p.Value)
+//@   ensures result1 == nil
+//@   ensures lenFits(p.Flags, p.Length, 4*len(p.Value)) ==> len(result0) == attrLen(p.Flags, p.Length)
+//@ func (*PathAttributeClusterList).Serialize
+//@   requires p != nil && len(p.Value) <= 16383
+//@   modifies nothing
+//@   loop 0 invariant len(buf) == 4*len(p.Value) && fresh(buf) && __iter + 1 <= len(p.Value)
+//@   ensures result1 == nil
+//@   ensures lenFits(p.Flags, p.Length, 4*len(p.Value)) ==> len(result0) == attrLen(p.Flags, p.Length)
+//@ func (*PathAttributeUnknown).Serialize
+//@   requires p != nil && len(p.Value) <= 65535
+//@   modifies nothing
+//@   ensures result1 == nil
+//@   ensures lenFits(p.Flags, p.Length, len(p.Value)) ==> len(result0) == attrLen(p.Flags, p.Length)
+//@ func (*PathAttributeOriginatorId).Serialize
+//@   requires p != nil
+//@   modifies nothing
+//@   ensures result1 == nil
+//@   ensures lenFits(p.Flags, p.Length, 4) ==> len(result0) == attrLen(p.Flags, p.Length)
+//@ func (*PathAttributeAs4Aggregator).Serialize
+//@   requires p != nil
+//@   modifies nothing
+//@   ensures result1 == nil
+//@   ensures lenFits(p.Flags, p.Length, 8) ==> len(result0) == attrLen(p.Flags, p.Length)
+//@ func (*PathAttributeNextHop).Serialize
+//@   requires p != nil
+//@   modifies nothing
+//@   ensures result1 == nil
+//@   ensures p.Value.Is4() && lenFits(p.Flags, p.Length, 4) ==> len(result0) == attrLen(p.Flags, p.Length)
+//@   ensures p.Value.Is6() && lenFits(p.Flags, p.Length, 16) ==> len(result0) == attrLen(p.Flags, p.Length)
